@@ -139,11 +139,37 @@ def _priv_allocs(P):
                 k = lv(x["c"][0])
                 if k and k.startswith("new->"):
                     out.append((tuple(k[len("new->"):].split(".")) + ("array",), "hwloc__tma_dup_infos", f.loc(n)))
+    _priv_allocs_helpers(P, f, out)
     return out
 
 
 def priv_fields(P):
     return set(p for p, fn, loc in _priv_allocs(P))
+
+
+def _priv_allocs_helpers(P, f, out):
+    """allocations made by a helper that receives &new->X (or new): X.<field> = malloc(..) inside the helper"""
+    for c in f.calls():
+        g = P.func(c.get("fn")) if c.get("fn") else None
+        if g is None or g.entry is None or g.unit is not f.unit:
+            continue
+        for i, a in enumerate(args(c)):
+            a2 = strip(a)
+            base = None
+            if a2 is not None and a2["k"] == "Unary" and a2["op"] == "&":
+                k = lv(a2["c"][0])
+                if k and k.startswith("new->"):
+                    base = tuple(k[len("new->"):].split("."))
+            if base is None or i >= len(g.params):
+                continue
+            pn = g.params[i]["n"]
+            for n in g.walk():
+                x = assigned(n)
+                if x and x[1] == "=" and x[2] is not None:
+                    r = strip(x[2])
+                    k = lv(x[0])
+                    if k and k.startswith(pn + "->") and r["k"] == "Call" and r.get("fn") in ("malloc", "calloc", "hwloc_bitmap_dup", "hwloc_bitmap_alloc", "strdup"):
+                        out.append((base + tuple(k[len(pn) + 2:].split(".")), r.get("fn"), g.loc(n)))
 
 
 def priv_pairing(chk, P, rule="R-PRIV"):
@@ -192,25 +218,83 @@ def header_rule(chk, P, rule="R-HDR"):
         return 0
     w = P.need_func("hwloc_shmem_topology_write", "shmem.c")
     a = P.need_func("hwloc_shmem_topology_adopt", "shmem.c")
-    written = set()
-    for n in w.walk():
-        x = assigned(n)
-        if x and lv(x[0]) and lv(x[0]).startswith("header."):
-            written.add(lv(x[0])[len("header."):])
-    compared = set()
-    m = must.Must(a).run()
-    mm = list(a.calls("mmap"))
-    st = m.before.get(mm[0]["id"], frozenset()) if mm else frozenset()
-    for fct in st:
-        if fct[0] == "F" and "header." in fct[1] and "!=" in fct[1]:
-            for fld in rec["fields"]:
-                if "header.%s" % fld["n"] in fct[1]:
-                    compared.add(fld["n"])
+    # what the writer stores in each header field, as a function of the writer's own arguments: evaluated with every
+    # parameter set to A (the writer may fill the header itself or in a helper)
+    A = 0x100000
+    stored = {}      # field -> value when all arguments are A
+    used_params = set()   # names of the writer-side arguments that end up in the header (mmap_address, length)
+    for f2 in u.funcs(only_main=True):
+        for n in f2.walk():
+            x = assigned(n)
+            if not x or x[1] != "=" or x[2] is None:
+                continue
+            t = strip(x[0])
+            if t["k"] == "Member" and t.get("rec") == "hwloc_shmem_header":
+                import extent
+                def base_env(fn_):
+                    e_ = {p["n"]: A for p in fn_.params}
+                    for k3, d3 in extent.single_defs(fn_).items():      # constant locals (header_length = sizeof(header))
+                        if cval(strip(d3)) is not None:
+                            e_.setdefault(k3, cval(strip(d3)))
+                    return e_
+                env = base_env(f2)
+                used_params.update(x9["n"] for x9 in subnodes(x[2]) if x9["k"] == "Ref" and x9.get("dk") == "param")
+                # a helper that fills the header gets its arguments from its caller: evaluate them there
+                for g2 in u.funcs(only_main=True):
+                    for c2 in g2.calls(f2.name):
+                        cenv2 = base_env(g2)
+                        for i2, p2 in enumerate(f2.params):
+                            if i2 < len(args(c2)):
+                                av = peval.Evaluator(g2, cenv2).ev(args(c2)[i2])
+                                if av is not None:
+                                    env[p2["n"]] = av
+                                used_params.update(x9["n"] for x9 in subnodes(args(c2)[i2]) if x9["k"] == "Ref" and x9.get("dk") == "param")
+                v = peval.Evaluator(f2, env).ev(x[2])
+                if v is not None:
+                    stored.setdefault(t["f"], v)
+                else:
+                    stored.setdefault(t["f"], None)
+    # the adopter, given the SAME arguments: with the header as written, the mapping is attempted; with any single field
+    # different, mmap is unreachable and the call fails with EINVAL (decided by seeded evaluation; the comparison may sit in
+    # adopt itself or in a helper that receives &header)
+    mm_ids = set(c["id"] for c in a.calls("mmap"))
+    def explore(hdr):
+        hit = []
+        def obs(nd, env):
+            if nd["id"] in mm_ids:
+                hit.append(1)
+        env = {p["n"]: A for p in a.params if p["n"] in used_params}     # the same arguments as given to the writer; the others are unknown
+        for fld, v in hdr.items():
+            env["header." + fld] = v
+        out = peval.PathEval(P, a, env, is_effect=lambda *z: False, through_effects=True, observe=obs, maxstates=60000).run()
+        rets = set((t[1], str(t[2])) for t in out.terminals if t[0] == "return")
+        return bool(hit), rets
     n = 0
+    base_ok = None
+    if all(v is not None for v in stored.values()) and stored and mm_ids:
+        try:
+            base_ok, _ = explore(dict(stored))
+        except AnalysisBroken as e:
+            chk.broke("%s: hwloc_shmem_topology_adopt not evaluable (%s)" % (rule, e))
+            return 0
+        if not base_ok:
+            chk.broke("%s: with the header exactly as the writer stores it (%s) adopt does not reach mmap: the rule's seeding no longer matches the code" % (rule, stored))
+            return 0
     for fld in rec["fields"]:
         n += 1
-        chk.inst(rule, w, "written:" + fld["n"], fld["n"] in written, "header field %s is written by hwloc_shmem_topology_write" % fld["n"])
-        chk.inst(rule, a, "checked:" + fld["n"], fld["n"] in compared, "header field %s is compared (mismatch -> EINVAL) on every path before adopt calls mmap" % fld["n"])
+        nm = fld["n"]
+        chk.inst(rule, w, "written:" + nm, nm in stored, "header field %s is stored by the writer (value %s when every argument is 0x%x)" % (nm, stored.get(nm), A))
+        if nm not in stored or stored[nm] is None or base_ok is None:
+            chk.inst(rule, a, "checked:" + nm, False, "header field %s: the writer's stored value is not evaluable" % nm)
+            continue
+        hdr = dict(stored)
+        hdr[nm] = stored[nm] + 1
+        reached, rets = explore(hdr)
+        ok = (not reached) and bool(rets) and all(v == -1 for v, e in rets) and any(e == str(peval.EINVAL) for v, e in rets)
+        chk.inst(rule, a, "checked:" + nm, ok, "with header.%s different from what the writer stores for the same arguments, adopt never reaches mmap and returns -1 with errno EINVAL (returns seen: %s%s)" % (
+            nm, sorted(rets), "; mmap reached" if reached else ""))
+    m = must.Must(a).run()
+    mm = list(a.calls("mmap"))
     # EBUSY when the kernel maps elsewhere, with munmap
     okb = False
     for n2 in a.walk():
